@@ -108,6 +108,10 @@ func batchCmd(args []string) {
 				rel, _ := filepath.Rel(pipe.HarnessRoot, *work)
 				c.Yaml.DefaultPackageName = "verifharness/" + filepath.ToSlash(rel) + "/spkg"
 				c.Yaml.TargetPackageName = "tgt"
+				if opt.TargetPackage != "" {
+					// e.g. "spkg": the target package has the NAME of the last element of the struct package's path, in another directory
+					c.Yaml.TargetPackageName = opt.TargetPackage
+				}
 				if opt.SeparatePackage == "override" {
 					overridePackage(c)
 				}
@@ -126,7 +130,9 @@ func batchCmd(args []string) {
 		if opt.SeparatePackage == "auto" || override {
 			rel, _ := filepath.Rel(pipe.HarnessRoot, *work)
 			opt.SeparatePackage = "verifharness/" + filepath.ToSlash(rel) + "/spkg"
-			opt.TargetPackage = "tgt"
+			if opt.TargetPackage == "" {
+				opt.TargetPackage = "tgt"
+			}
 		}
 		c, m = gen.GenCase(r, opt)
 		if override && c.Yaml != nil {
